@@ -38,8 +38,11 @@ import (
 // (tunnox:conn_state:<conn>).  Only goroutines the driver started through the scheduler park
 // there - a two-step lookup (LkBegin .. LkEnd): FindClientNode has read the client index and
 // waits before reading the record the index named; everything else passes straight through.
+//
+// It embeds the concrete *hybrid.Storage so that every optional interface the code may probe for
+// (CASStore, ListStore, ...) is still visible through the wrapper exactly as on the real storage.
 type gatedReads struct {
-	storage.Storage
+	*storage.HybridStorage
 	s *sched.Sched
 }
 
@@ -48,7 +51,15 @@ func (g *gatedReads) Get(key string) (any, error) {
 		g.s.Gate("cs.GetRecord", map[string]any{"key": key})
 		defer g.s.After()
 	}
-	return g.Storage.Get(key)
+	return g.HybridStorage.Get(key)
+}
+
+func gate(st storage.Storage, s *sched.Sched) storage.Storage {
+	h, ok := st.(*storage.HybridStorage)
+	if !ok {
+		panic(fmt.Sprintf("wiring storage is %T, expected *hybrid.Storage", st))
+	}
+	return &gatedReads{HybridStorage: h, s: s}
 }
 
 // Discrete clock of the model -> real time.  Registration lifetime = 2 ticks.
@@ -234,7 +245,7 @@ func newCluster(be string, nodes, clients []string) (*cluster, error) {
 			cl.Close()
 			return nil, err
 		}
-		s.SM.SetConnectionStateStore(session.NewConnectionStateStore(&gatedReads{Storage: st, s: cl.sch}, "node-"+n, regTTL))
+		s.SM.SetConnectionStateStore(session.NewConnectionStateStore(gate(st, cl.sch), "node-"+n, regTTL))
 		pc := session.DefaultCrossNodePoolConfig()
 		pc.MinConns, pc.MaxConns, pc.DialTimeout = 0, 4, 2*time.Second
 		pool := session.NewCrossNodePool(s.Ctx, st, "node-"+n, pc)
@@ -711,26 +722,28 @@ func main() {
 			// connection while the lookup still found it.
 			if env.Tier == "thorough" {
 				return []fw.TLCJob{
+					genJob("gen:first", three, 3, `{"X"}`, 2, 8, `{"str"}`, allFixes, "first"),
 					genJob("gen:dev", two, 3, `{"X", "Y"}`, 3, 8, `{"str", "ptr"}`, "{}", "dev"),
 					genJob("gen:lost", two, 3, `{"X", "Y"}`, 3, 8, `{"str"}`, allFixes, "lost"),
 					genJob("gen:close", two, 3, `{"X", "Y"}`, 3, 8, `{"str"}`, allFixes, "close"),
 					genJob("gen:lookup", three, 3, `{"X"}`, 2, 9, `{"str"}`, allFixes, "lookup"),
 					genJob("gen:reauth", two, 3, `{"X", "Y"}`, 3, 8, `{"str"}`, allFixes, "reauth"),
 					genJob("gen:long", two, 3, `{"X"}`, 3, 9, `{"str"}`, allFixes, "long"),
-					genJob("gen:first", three, 3, `{"X"}`, 2, 8, `{"str"}`, allFixes, "first"),
+					genJob("gen:longre", two, 3, `{"X"}`, 3, 9, `{"str"}`, allFixes, "longre"),
 					genJob("gen:asis", two, 3, `{"X", "Y"}`, 3, 7, `{"str"}`, "{}", "all"),
 					genJob("gen:asis-ptr", two, 3, `{"X"}`, 3, 8, `{"ptr"}`, "{}", "all"),
 					genJob("gen:3nodes", three, 3, `{"X"}`, 3, 7, `{"str"}`, "{}", "all"),
 				}
 			}
 			return []fw.TLCJob{
+				genJob("gen:first", two, 2, `{"X"}`, 2, 7, `{"str"}`, allFixes, "first"),
 				genJob("gen:dev", two, 3, `{"X"}`, 3, 7, `{"str", "ptr"}`, "{}", "dev"),
 				genJob("gen:lost", two, 3, `{"X"}`, 3, 8, `{"str"}`, allFixes, "lost"),
 				genJob("gen:close", two, 3, `{"X"}`, 3, 8, `{"str"}`, allFixes, "close"),
 				genJob("gen:lookup", two, 2, `{"X"}`, 2, 8, `{"str"}`, allFixes, "lookup"),
 				genJob("gen:reauth", two, 3, `{"X"}`, 3, 7, `{"str"}`, allFixes, "reauth"),
 				genJob("gen:long", two, 2, `{"X"}`, 3, 8, `{"str"}`, allFixes, "long"),
-				genJob("gen:first", two, 2, `{"X"}`, 2, 7, `{"str"}`, allFixes, "first"),
+				genJob("gen:longre", two, 2, `{"X"}`, 3, 8, `{"str"}`, allFixes, "longre"),
 				genJob("gen:asis", two, 3, `{"X"}`, 3, 7, `{"str"}`, "{}", "all"),
 				genJob("gen:two", two, 2, `{"X", "Y"}`, 2, 7, `{"str"}`, "{}", "all"),
 			}
@@ -741,9 +754,9 @@ func main() {
 				return 420
 			}
 			if src == "gen:asis" || src == "gen:two" {
-				return 30
+				return 24
 			}
-			return 39
+			return 30
 		},
 		Expand: func(env *fw.Env, src string, raw json.RawMessage) []json.RawMessage {
 			var steps []step
@@ -783,7 +796,7 @@ func main() {
 			}
 			return n >= 3
 		},
-		Rule: "one behaviour per transition (state, session event incl. undeliverable handshakes and closes by cause peer/cmd/sweep/kick) of the bounded ConnState state graph (shortest history to the state + the event), plus targeted covers: every model-predicted route to a deviation (gen:dev), undeliverable handshakes while connected elsewhere (gen:lost), closes of the last connection by command/kick/sweep (gen:close), two-step lookups overtaken by a handshake elsewhere / a cleanup and followed by a heartbeat (gen:lookup), successful re-handshakes on an authenticated connection that the store no longer names (gen:reauth), sessions and re-handshakes on a connection older than one registration lifetime (gen:long), first-connection handshakes with a server-allocated identity (gen:first); each replayed on the memory, Redis and tiered wirings; non-trivial = at least 3 session events",
+		Rule: "one behaviour per transition (state, session event incl. undeliverable handshakes and closes by cause peer/cmd/sweep/kick) of the bounded ConnState state graph (shortest history to the state + the event), plus targeted covers: every model-predicted route to a deviation (gen:dev), undeliverable handshakes while connected elsewhere (gen:lost), closes of the last connection by command/kick/sweep (gen:close), two-step lookups overtaken by a handshake elsewhere / a cleanup and followed by a heartbeat (gen:lookup), successful re-handshakes on an authenticated connection that the store no longer names (gen:reauth), sessions (gen:long) and re-handshakes (gen:longre) on a connection older than one registration lifetime, first-connection handshakes with a server-allocated identity (gen:first); each replayed on the memory, Redis and tiered wirings; non-trivial = at least 3 session events",
 		Assumptions: []string{
 			"nodes are SessionManager assemblies in one process sharing a store (srvkit); client identities are provisioned on every node's config repository",
 			"registration lifetime 500 ms = 2 model ticks of 300 ms; behaviours whose steps overran the margin are discarded as inconclusive",
